@@ -113,6 +113,13 @@ func (p *Pool) Put(x interface{}) {
 	}
 }
 
+// Len returns the length of the free list.
+func (p *Pool) Len() int {
+	p.mu.Lock()
+	defer p.mu.Unlock()
+	return len(p.items)
+}
+
 // Items returns a copy of the free list (oldest first).
 func (p *Pool) Items() []interface{} {
 	p.mu.Lock()
